@@ -384,9 +384,39 @@ Proof. intros H. simpl. apply N.eqb_neq in H. rewrite H. auto. Qed.
 Lemma kstep_add_other n tn k s : k_name k <> n -> kstep n (OpAddCons tn k) s = s.
 Proof. intros H. simpl. apply N.eqb_neq in H. rewrite H. apply app_nil_r. Qed.
 
+(* without unnamed unique constraints in the metadata table the comparison is the three name-driven loops *)
+Definition ciu_named (tn:N) (conn_table metadata_table:option table) : list op :=
+  let is_create_table := match conn_table with None => true | Some _ => false end in
+  let is_drop_table := match metadata_table with None => true | Some _ => false end in
+  let cod := is_create_table || is_drop_table in
+  let metadata_cons := match metadata_table with Some m => t_cons m | None => [] end in
+  let supports_unique_constraints := negb is_create_table in
+  let conn_cons := match conn_table with
+                   | Some c => if is_drop_table then filter is_ix (t_cons c) else t_cons c
+                   | None => []
+                   end in
+  flat_map (fun ck => if memN (k_name ck) (keys k_name metadata_cons) then []
+                      else obj_removed tn supports_unique_constraints cod ck) conn_cons
+  ++ flat_map (fun mk => match kfind k_name (k_name mk) conn_cons with
+                         | Some ck => if negb (Bool.eqb (is_ix ck) (is_ix mk))
+                                      then obj_removed tn supports_unique_constraints cod ck
+                                           ++ obj_added tn supports_unique_constraints cod mk
+                                      else if sig_equal mk ck then [] else obj_changed tn ck mk
+                         | None => []
+                         end) metadata_cons
+  ++ flat_map (fun mk => if memN (k_name mk) (keys k_name conn_cons) then []
+                         else obj_added tn supports_unique_constraints cod mk) metadata_cons.
+Definition no_uuq (mt:option table) : Prop := match mt with Some m => t_uuqs m = [] | None => True end.
+Lemma ciu_no_unnamed tn ct mt : no_uuq mt -> compare_indexes_and_uniques tn ct mt = ciu_named tn ct mt.
+Proof. intros H. unfold compare_indexes_and_uniques, ciu_named.
+  assert (Hu: match mt with Some m => t_uuqs m | None => [] end = []) by (destruct mt; auto).
+  rewrite Hu. f_equal.
+  - apply flat_map_ext. intros a. simpl. rewrite andb_false_r. reflexivity.
+  - f_equal. rewrite <- app_nil_r. f_equal. destruct ct, mt; auto. simpl in H. rewrite H. reflexivity. Qed.
+
 Definition cons_fix (ck mk:cons) : cons := if Bool.eqb (is_ix ck) (is_ix mk) && sig_equal mk ck then ck else mk.
 
-Lemma cons_after tn c m K1 K2 n :
+Lemma cons_after tn c m K1 K2 n : t_uuqs m = [] ->
   NoDup (keys k_name (t_cons c)) -> NoDup (keys k_name (t_cons m)) -> kstep_id K1 -> kstep_id K2 ->
   ksel k_name n (run apply_kop (K1 ++ compare_indexes_and_uniques tn (Some c) (Some m) ++ K2) (t_cons c)) =
   match kfind k_name n (t_cons m) with
@@ -394,8 +424,8 @@ Lemma cons_after tn c m K1 K2 n :
   | None => []
   end.
 Proof.
-  intros Hc Hm HK1 HK2. rewrite ksel_run_kop, (ksel_nodup k_name n _ Hc).
-  unfold compare_indexes_and_uniques. cbn [orb negb]. rewrite !run_app.
+  intros Hu Hc Hm HK1 HK2. rewrite ksel_run_kop, (ksel_nodup k_name n _ Hc).
+  rewrite (ciu_no_unnamed tn (Some c) (Some m) Hu). unfold ciu_named. cbn [orb negb]. rewrite !run_app.
   rewrite (run_id (kstep n) K1). 2:{ intros; apply HK1; auto. }
   rewrite (run_id (kstep n) K2). 2:{ intros; apply HK2; auto. }
   (* added names (outermost), existing names, removed names *)
@@ -435,7 +465,7 @@ Qed.
 Definition col_op (tn:N) (o:op) : Prop :=
   match o with OpAddColumn t _ | OpDropColumn t _ | OpAlterColumn t _ _ _ _ _ _ _ => t = tn | _ => False end.
 Definition cons_op (tn:N) (o:op) : Prop :=
-  match o with OpAddCons t _ | OpDropCons t _ _ => t = tn | _ => False end.
+  match o with OpAddCons t _ | OpDropCons t _ _ | OpAddUUq t _ => t = tn | _ => False end.
 
 Definition fk_op (tn:N) (o:op) : Prop :=
   match o with OpAddFk t _ | OpDropFk t _ _ => t = tn | _ => False end.
@@ -446,12 +476,14 @@ Lemma obj_removed_In tn s c k o : In o (obj_removed tn s c k) -> o = OpDropCons 
 Proof. destruct k; simpl; [destruct c|destruct (u && negb s)]; simpl; intuition. Qed.
 
 Lemma ciu_ops tn ct mt o : In o (compare_indexes_and_uniques tn ct mt) -> cons_op tn o.
-Proof. unfold compare_indexes_and_uniques. rewrite !in_app_iff, !in_flat_map. intros [[x [_ H]]|[[x [_ H]]|[x [_ H]]]].
-  - destruct (memN _ _); [inversion H|]. apply obj_removed_In in H. subst; simpl; auto.
+Proof. unfold compare_indexes_and_uniques. rewrite !in_app_iff, !in_flat_map. intros [[x [_ H]]|[[x [_ H]]|[[x [_ H]]|H]]].
+  - destruct (memN _ _); [inversion H|]. destruct (is_uq x && _); [inversion H|]. apply obj_removed_In in H. subst; simpl; auto.
   - destruct (kfind _ _ _); [|inversion H]. destruct (negb _).
     + apply in_app_iff in H. destruct H as [H|H]; [apply obj_removed_In in H|apply obj_added_In in H]; subst; simpl; auto.
     + destruct (sig_equal _ _); [inversion H|]. simpl in H. destruct H as [<-|[<-|[]]]; simpl; auto.
-  - destruct (memN _ _); [inversion H|]. apply obj_added_In in H. subst; simpl; auto. Qed.
+  - destruct (memN _ _); [inversion H|]. apply obj_added_In in H. subst; simpl; auto.
+  - destruct ct as [c|]; [|inversion H]. destruct mt as [m|]; [|inversion H]. apply in_flat_map in H. destruct H as [u [_ H]].
+    destruct (existsb _ _); [inversion H|]. destruct H as [<-|[]]. simpl; auto. Qed.
 Lemma pre_ops g tn c m o : In o (compare_columns_pre g tn c m) -> col_op tn o.
 Proof. unfold compare_columns_pre. rewrite in_app_iff, !in_flat_map. intros [[x [_ H]]|[x [_ H]]].
   - destruct (memN _ _); simpl in H; [tauto|]. destruct H as [<-|[]]. simpl; auto.
@@ -504,10 +536,11 @@ Proof. intros [H1 H2]. unfold compare_foreign_keys.
   rewrite (flat_map_nil _ (t_fks m)). 2:{ intros x Hx. rewrite (H2 x Hx). auto. }
   reflexivity. Qed.
 
-Lemma existing_table_nil g c m :
+Lemma existing_table_nil g c m : t_uuqs m = [] ->
   cols_ok g (t_name m) (t_cols c) (t_cols m) -> cons_ok (t_cons c) (t_cons m) -> fks_ok (t_fks c) (t_fks m) -> existing_table g c m = [].
-Proof. intros [Hc1 Hc2] [Hk1 Hk2] Hf. unfold existing_table. rewrite (cfk_nil _ _ _ Hf).
-  unfold compare_columns_pre, compare_columns_post, compare_indexes_and_uniques.
+Proof. intros Hu [Hc1 Hc2] [Hk1 Hk2] Hf. unfold existing_table. rewrite (cfk_nil _ _ _ Hf).
+  rewrite (ciu_no_unnamed (t_name m) (Some c) (Some m) Hu).
+  unfold compare_columns_pre, compare_columns_post, ciu_named.
   cbn [orb negb].
   rewrite (flat_map_nil _ (t_cols m)). 2:{ intros x Hx. destruct (Hc1 x Hx) as [y [Hy _]]. rewrite memN_keys, Hy. auto. }
   rewrite (flat_map_nil _ (t_cols m)). 2:{ intros x Hx. destruct (Hc1 x Hx) as [y [Hy Ha]]. rewrite Hy. auto. }
@@ -679,10 +712,10 @@ Proof. intros Hm H. apply cols_ok_of_sel; auto. intros n. specialize (H n). rewr
   - rewrite H. auto. Qed.
 
 (* ================================================================ an existing table converges in one pass *)
-Lemma existing_converge g c m : nd_table c -> nd_table m -> dok_table m -> NoDup (keys f_name (t_fks c)) ->
+Lemma existing_converge g c m : t_uuqs m = [] -> nd_table c -> nd_table m -> dok_table m -> NoDup (keys f_name (t_fks c)) ->
   NoDup (keys f_name (t_fks m)) -> fk_names_okP (t_fks c) (t_fks m) ->
   existing_table g (reflect_table (run apply_top (existing_table g (reflect_table c) m) c)) m = [].
-Proof. intros [Hcc Hck] [Hmc Hmk] Hok Hfk Hfkm Hnames.
+Proof. intros Hu [Hcc Hck] [Hmc Hmk] Hok Hfk Hfkm Hnames.
   set (pre := compare_columns_pre g (t_name m) (reflect_table c) m).
   set (ciu := compare_indexes_and_uniques (t_name m) (Some (reflect_table c)) (Some m)).
   set (cfk := compare_foreign_keys (t_name m) (Some (reflect_table c)) (Some m)).
@@ -691,7 +724,7 @@ Proof. intros [Hcc Hck] [Hmc Hmk] Hok Hfk Hfkm Hnames.
   assert (Hpost: forall o, In o post -> col_op (t_name m) o) by (intros o Ho; eapply post_ops; eauto).
   assert (Hciu: forall o, In o ciu -> cons_op (t_name m) o) by (intros o Ho; eapply ciu_ops; eauto).
   assert (Hcfk: forall o, In o cfk -> fk_op (t_name m) o) by (intros o Ho; eapply cfk_ops; eauto).
-  apply existing_table_nil.
+  apply existing_table_nil; auto.
   - cbn [reflect_table t_cols]. rewrite cols_run_top. unfold existing_table. fold pre ciu cfk post.
     replace (pre ++ ciu ++ cfk ++ post) with (pre ++ (ciu ++ cfk) ++ post) by (rewrite <- !app_assoc; reflexivity).
     apply cols_ok_reflect; auto. intros n. unfold pre, post.
@@ -725,24 +758,24 @@ Lemma cons_ok_refl ks : NoDup (keys k_name ks) -> cons_ok ks ks.
 Proof. intros H. split.
   - intros mk Hin. exists mk. rewrite kfind_nodup; auto. rewrite eqb_reflx, sig_equal_refl. auto.
   - intros x Hin. apply in_map; auto. Qed.
-Lemma existing_quiet g m : nd_table m -> dok_table m -> existing_table g (reflect_table m) m = [].
-Proof. intros [H1 H2] Hok. apply existing_table_nil; [apply cols_ok_refl|apply cons_ok_refl|apply fks_ok_reflect, fks_ok_refl]; auto. Qed.
+Lemma existing_quiet g m : t_uuqs m = [] -> nd_table m -> dok_table m -> existing_table g (reflect_table m) m = [].
+Proof. intros Hu [H1 H2] Hok. apply existing_table_nil; auto; [apply cols_ok_refl|apply cons_ok_refl|apply fks_ok_reflect, fks_ok_refl]; auto. Qed.
 
 (* ================================================================ a created table needs nothing more *)
-Lemma created_after m n : NoDup (keys k_name (t_cons m)) ->
+Lemma created_after m n : t_uuqs m = [] -> NoDup (keys k_name (t_cons m)) ->
   ksel k_name n (run apply_kop (compare_indexes_and_uniques (t_name m) None (Some m)) (filter is_uq (t_cons m))) =
   match kfind k_name n (t_cons m) with Some mk => [mk] | None => [] end.
-Proof. intros Hm. rewrite ksel_run_kop, ksel_filter, (ksel_nodup k_name n _ Hm).
-  unfold compare_indexes_and_uniques. cbn [orb negb flat_map app].
+Proof. intros Hu Hm. rewrite ksel_run_kop, ksel_filter, (ksel_nodup k_name n _ Hm).
+  rewrite (ciu_no_unnamed (t_name m) None (Some m) Hu). unfold ciu_named. cbn [orb negb flat_map app].
   rewrite (flat_map_nil _ (t_cons m)). 2:{ intros; reflexivity. }
   cbn [app]. rewrite (run_seg (kstep n) k_name _ n (t_cons m)); auto.
   2:{ intros x _ Hx o Ho s'. cbn in Ho. apply obj_added_In in Ho. subst o. apply kstep_add_other; auto. }
   destruct (kfind k_name n (t_cons m)) as [mk|] eqn:E; auto.
   destruct (kfind_some _ _ _ _ E) as [_ Hk]. destruct mk; cbn; auto. cbn in Hk. rewrite Hk, N.eqb_refl. auto. Qed.
 
-Lemma created_quiet g m : nd_table m -> dok_table m ->
+Lemma created_quiet g m : t_uuqs m = [] -> nd_table m -> dok_table m ->
   existing_table g (reflect_table (run apply_top (compare_indexes_and_uniques (t_name m) None (Some m)) (create_table_of m))) m = [].
-Proof. intros [Hc Hk] Hok. apply existing_table_nil.
+Proof. intros Hu [Hc Hk] Hok. apply existing_table_nil; auto.
   - cbn [reflect_table t_cols]. rewrite cols_run_top. cbn [create_table_of t_cols].
     rewrite (run_id apply_cop). 2:{ intros o Ho. eapply cons_op_cop, ciu_ops; eauto. }
     apply cols_ok_refl; auto.
@@ -836,9 +869,12 @@ Lemma defaults_ok_dok S : defaults_ok S = true -> forall t, In t S -> dok_table 
 Proof. unfold defaults_ok. rewrite forallb_forall. intros H t Ht c Hc. specialize (H t Ht). rewrite forallb_forall in H.
   specialize (H c Hc). unfold dok_col. destruct (c_default c); auto. Qed.
 
+Lemma no_unnamed_uq_nil S : no_unnamed_uq S = true -> forall t, In t S -> t_uuqs t = [].
+Proof. unfold no_unnamed_uq. rewrite forallb_forall. intros H t Ht. specialize (H t Ht). destruct (t_uuqs t); auto. discriminate. Qed.
+
 (* ================================================================ C06 *)
-Theorem diff_quiet g A : wf_schemab A = true -> defaults_ok A = true -> diff g (reflect_sqlite A) A = [].
-Proof. intros H Hd. apply wf_schema_nd in H. destruct H as [Hn Ht]. pose proof (defaults_ok_dok _ Hd) as Hok. unfold diff.
+Theorem diff_quiet g A : wf_schemab A = true -> defaults_ok A = true -> no_unnamed_uq A = true -> diff g (reflect_sqlite A) A = [].
+Proof. intros H Hd Hu. pose proof (no_unnamed_uq_nil _ Hu) as Hun. apply wf_schema_nd in H. destruct H as [Hn Ht]. pose proof (defaults_ok_dok _ Hd) as Hok. unfold diff.
   apply compare_tables_nil.
   - intros m Hm. exists (reflect_table m). unfold reflect_sqlite. rewrite (kfind_map t_name reflect_table reflect_table_name), kfind_nodup; auto.
     split; auto. apply existing_quiet; auto.
@@ -846,8 +882,9 @@ Proof. intros H Hd. apply wf_schema_nd in H. destruct H as [Hn Ht]. pose proof (
     unfold keys. apply in_map; auto. Qed.
 
 Theorem diff_converge g A B : wf_schemab A = true -> wf_schemab B = true -> defaults_ok B = true -> fk_names_ok A B = true ->
+  no_unnamed_uq B = true ->
   diff g (reflect_sqlite (apply_ops (diff g (reflect_sqlite A) B) A)) B = [].
-Proof. intros HA HB Hd Hnm. pose proof (wf_schema_ndf _ HA) as HAf. pose proof (wf_schema_ndf _ HB) as HBf. apply wf_schema_nd in HA. apply wf_schema_nd in HB. destruct HA as [HAn HAt], HB as [HBn HBt].
+Proof. intros HA HB Hd Hnm Hu. pose proof (no_unnamed_uq_nil _ Hu) as Hun. pose proof (wf_schema_ndf _ HA) as HAf. pose proof (wf_schema_ndf _ HB) as HBf. apply wf_schema_nd in HA. apply wf_schema_nd in HB. destruct HA as [HAn HAt], HB as [HBn HBt].
   pose proof (defaults_ok_dok _ Hd) as Hok. unfold diff. apply compare_tables_nil.
   - intros m Hm. unfold reflect_sqlite at 1. rewrite (kfind_map t_name reflect_table reflect_table_name), kfind_hd, tables_after; auto.
     rewrite (kfind_nodup t_name m B); auto.
